@@ -534,6 +534,10 @@ func runC03(c *Ctx) {
 	}
 	c04Extra(c)
 	c03PresenceIndex(c)
+	c03LossyConversion(c)
+	c03LoopEarlySuccess(c)
+	c04NormaliseTotal(c)
+	c04NilOutSameSide(c)
 }
 
 // enclosingStmtList returns the innermost block/clause that contains n.
